@@ -3,7 +3,7 @@ from vlib import *
 import gen_ex
 from props import exlib
 
-PROP = "C14"; MODULES = ["NeatviVerif.Props.C14"]; MODE = "ex14"
+PROP = "C14"; MODULES = ["NeatviVerif.Props.C14", "NeatviVerif.Props.C13b"]; MODE = "ex14"
 
 def streams(probe, tier, seed, wide):
     rng = Rng(seed)
